@@ -1,4 +1,6 @@
 import CelmaVerif.Lemmas.Groups
+import CelmaVerif.Lemmas.GroupsDispatch
+import CelmaVerif.Lemmas.GroupsCross
 /-
   C08 — evaluating through an argument group equals one handler owning all arguments.
 -/
@@ -57,6 +59,61 @@ theorem C08_single_member_accepts (cfg : Cfg) (inits : List DVal) (argv : List W
   | ok h0 => rw [hs] at h; obtain ⟨h', hg, _⟩ := h; rw [hg]; rfl
   | throw e => rw [hs] at h; obtain ⟨e', hg, _⟩ := h; rw [hg]; rfl
   | oob w => rw [hs] at h; obtain ⟨w', hg⟩ := h; rw [hg]; rfl
+
+/-! ### dispatch -/
+
+/-- Each key word is handled by exactly the handler that defines its key.  Members `pre`, then
+    `(c, h)`, then `post`, in registration order; abbreviations off in every member; the members'
+    key tables do not clash pairwise (`MembersDisjoint`, what the cross check establishes); the
+    element is a key element (`-c` / `--word`) looked up with the key `k` (a character or a word,
+    `k.Single`), and an entry of member `c` designates `k`.  Then
+    * no entry of any other member equals `k` — `c` is the first and the only member that knows it;
+    * the offer is `c`'s own `evalSingleArgument` answer (same new state, same cursor, same result,
+      same exception), with every other member's state unchanged except that its last-argument
+      marker is cleared (`clearLast`);
+    * that answer is never `unknown`. -/
+theorem C08_dispatch (pre post : List (Cfg × HState)) (c : Cfg) (h : HState) (ai : It) (k : Key)
+    (hk : ElemKey ai k) (hs : k.Single)
+    (habbr : ∀ m ∈ pre ++ (c, h) :: post, m.1.abbr = false)
+    (hd : MembersDisjoint (pre ++ (c, h) :: post))
+    (hc : ∃ e ∈ c.table, e.1.Clash k) :
+    (∀ m ∈ pre ++ post, ∀ f ∈ m.1.table, f.1.eq k = false) ∧
+    offer (ai.cur.ty != .value) (pre ++ (c, h) :: post) ai =
+      (evalSingleArgument c h ai >>= fun (x : HState × It × ArgResult) =>
+        pure (clearLast pre ++ (c, x.1) :: clearLast post, x.2.1, x.2.2)) ∧
+    ∀ h' ai' r, evalSingleArgument c h ai = .ok (h', ai', r) → r = .consumed := by
+  have hothers := membersDisjoint_others pre post c h k hs hd hc
+  refine ⟨hothers, ?_⟩
+  apply offer_dispatch pre post c h ai k hk
+  · intro m hm
+    exact ⟨habbr m (List.mem_append_left _ hm), hothers m (List.mem_append_left _ hm)⟩
+  · obtain ⟨e, he, hek⟩ := hc
+    exact ⟨e, he, (eq_iff_clash_of_single e.1 k hs).mpr hek⟩
+
+/-! ### defining the same key in two members -/
+
+/-- Defining the same key in two member handlers is refused.  (`groupAddArgument` models
+    `Handler::internAddArgument` for a handler used by a group: `Storage::addArgument` into the own
+    table, then `Groups::crossCheckArguments` = `ArgumentContainer::checkArgMix` against every other
+    member; see Lemmas/GroupsCross.lean.)  If some key `o` of another member equals the new key
+    (`==`: same short key, or same long key) or mismatches it (one part equal, the other different),
+    the definition throws `std::invalid_argument`. -/
+theorem C08_cross_check {α : Type} (own : List (Key × α)) (others : List (List Key)) (k : Key) (a : α)
+    (t : List Key) (ht : t ∈ others) (o : Key) (ho : o ∈ t) (hc : o.eq k = true ∨ o.mismatch k = true) :
+    groupAddArgument own others k a = .throw .invalid_argument :=
+  groupAddArgument_refused own others k a t ht o ho hc
+
+/-- … and nothing else is refused: for a member whose table did not clash with the others before,
+    the definition is accepted (the entry is appended) exactly when the key designates no argument of
+    the member itself and no argument of another member; afterwards the member still clashes with no
+    other member.  Otherwise it throws `std::invalid_argument`. -/
+theorem C08_cross_check_exact {α : Type} (own : List (Key × α)) (others : List (List Key)) (k : Key) (a : α)
+    (hprev : ∀ t ∈ others, ∀ e ∈ own, ∀ o ∈ t, ¬ e.1.Clash o) :
+    (groupAddArgument own others k a = .ok (own ++ [(k, a)]) ∧
+      (¬ ∃ e ∈ own, e.1.Clash k) ∧ ∀ t ∈ others, ∀ o ∈ t, ¬ k.Clash o) ∨
+    (groupAddArgument own others k a = .throw .invalid_argument ∧
+      ((∃ e ∈ own, e.1.Clash k) ∨ ∃ t ∈ others, ∃ o ∈ t, k.Clash o)) :=
+  groupAddArgument_cases own others k a hprev
 
 /-! ### known finding: abbreviations are resolved per member -/
 
